@@ -11,6 +11,9 @@ void set_script (string key, string ops) { scripts[key] = ops; }
 
 mixed do_op (string s);
 
+// this_player() as an oid ("-" = 0 or destructed)
+string tp () { object p = this_player (); return objectp (p) ? "/vreg"->oid_of (p) : "-"; }
+
 void run (string key) {
   string s = scripts[key];
   if (!stringp (s)) return;
@@ -21,7 +24,7 @@ void run (string key) {
 }
 
 void fired (int f, mixed tag) {
-  VL (VNOW + " fire " + oid + " " + f + " " + tag);
+  VL (VNOW + " fire " + oid + " " + f + " " + tag + " " + tp ());
   run ("co:" + tag);
 }
 void co0 (mixed tag) { fired (0, tag); }
@@ -43,8 +46,15 @@ mixed do_op (string s) {
   case "co":   // co <f> <delay> <tag>
     r = call_out ("co" + w[1], to_int (w[2]), w[3]);
     handles[w[3]] = r;
-    VL (VNOW + " r co " + oid + " " + w[1] + " " + w[2] + " " + w[3] + " " + r);
+    VL (VNOW + " r co " + oid + " " + w[1] + " " + w[2] + " " + w[3] + " " + r + " " + tp ());
     break;
+  case "cofp": { // cofp <f> <delay> <tag>: function-pointer call_out (cop->ob == 0 in call_out.c)
+    function *fps = ({ (: co0 :), (: co1 :), (: co2 :), (: co3 :) });
+    r = call_out (fps[to_int (w[1])], to_int (w[2]), w[3]);
+    handles[w[3]] = r;
+    VL (VNOW + " r cofp " + oid + " " + w[1] + " " + w[2] + " " + w[3] + " " + r + " " + tp ());
+    break;
+  }
   case "rmh":  // remove by handle of tag
     r = remove_call_out (handles[w[1]]);
     VL (VNOW + " r rmh " + oid + " " + w[1] + " " + r);
@@ -78,7 +88,8 @@ mixed do_op (string s) {
     mixed *inf = call_out_info ();
     mixed *rows = ({ });
     string t = "";
-    foreach (mixed *e in inf) rows += ({ ({ "/vreg"->oid_of (e[0]), e[1], e[2] }) });
+    // rows of function-pointer call_outs whose owner is destructed carry 0 as object: dropped here
+    foreach (mixed *e in inf) if (objectp (e[0])) rows += ({ ({ "/vreg"->oid_of (e[0]), e[1], e[2] }) });
     rows = sort_array (rows, "cmp_info");
     foreach (mixed *e in rows) t += " " + e[0] + "/" + e[1] + "/" + e[2];
     VL (VNOW + " r info" + t);
